@@ -168,6 +168,26 @@ def execute_large(case):
             if got.reshape(-1).shape != exp.reshape(-1).shape or not np.array_equal(got.reshape(-1), exp.reshape(-1)):
                 fails.append({"sig": {"kind": "large-image-value", "type": tc}, "detail": f"{tc} {L}x{P} rpc={rpc or 'default'} on {case['fs']}: selection '{label}' differs from the file"})
                 break
+        # results must stay what they were while later reads happen (no aliasing of a reused buffer), and copies of
+        # the tree (deep copy, pickle round trip) must read the same file the same way
+        import copy as _copy
+        import pickle as _pickle
+
+        held = [(k, np.asarray(var.isel(rows=k).values)) for k in (0, L // 2, L - 1)] + [("window", np.asarray(var.isel(rows=slice(L // 3, L // 3 + 5)).values))]
+        var.isel(rows=slice(0, min(L, 40))).values
+        for k, arr in held:
+            exp = want[k] if k != "window" else want[L // 3 : L // 3 + 5]
+            if not np.array_equal(np.ascontiguousarray(arr).view(view).reshape(-1), exp.reshape(-1)):
+                fails.append({"sig": {"kind": "held-result-changed", "type": tc}, "detail": f"{tc} {L}x{P} rpc={rpc or 'default'}: the array returned for rows {k} changed after a later read of the same image"})
+                break
+        for how, clone in (("deep copy", lambda: tree.copy(deep=True)), ("pickle round trip", lambda: _pickle.loads(_pickle.dumps(tree))), ("copy.deepcopy of the variable", lambda: {"imagery/HH/data": _copy.deepcopy(var)})):
+            try:
+                cvar = clone()["imagery/HH/data"]
+                got = np.ascontiguousarray(np.asarray(cvar.isel(rows=slice(0, L, max(L // 9, 1))).values)).view(view)
+                if not np.array_equal(got.reshape(-1), want[:: max(L // 9, 1)].reshape(-1)):
+                    fails.append({"sig": {"kind": "copy-value", "type": tc, "how": how}, "detail": f"{tc} {L}x{P} rpc={rpc or 'default'}: {how} of the tree loads other values than the file"})
+            except Exception as e:
+                fails.append({"sig": {"kind": "copy-raises", "type": tc, "how": how}, "detail": f"{tc} {L}x{P} rpc={rpc or 'default'}: {how}: {type(e).__name__}: {str(e)[:80]}"})
         for label, rsel, csel in (("line + pixel window", L // 2, slice(P // 2, P // 2 + 7)), ("window + pixel", slice(5, 9), P - 1)):
             got = np.ascontiguousarray(np.asarray(var.isel(rows=rsel, columns=csel).values))
             full = want if tc == "IU2" else want.reshape(L, P, 2)
@@ -175,6 +195,34 @@ def execute_large(case):
             if not np.array_equal(got.view(view).reshape(-1), np.ascontiguousarray(exp).reshape(-1)):
                 fails.append({"sig": {"kind": "large-image-value", "type": tc}, "detail": f"{tc} {L}x{P} rpc={rpc or 'default'}: selection '{label}' differs from the file"})
     return {"ok": not fails, "failures": fails, "outcome": f"large:{tc}:{'ok' if not fails else 'value'}", "nontrivial": True}
+
+
+def execute_twins(case):
+    """a level 1.1 and a level 1.5 image whose line records are equally long (544 + 8 P11 == 192 + 2 P15), opened one after the
+    other in the same process, in both orders: whatever the library memoises per record length / chunk size must not leak"""
+    L, rpc, p11 = case["L"], case["rpc"], case["P11"]
+    p15 = 176 + 4 * p11
+    fails = []
+    order = [("C*8", p11), ("IU2", p15)]
+    if case["reverse"]:
+        order.reverse()
+    for tc, P in order:
+        rng = np.random.default_rng(P)
+        n = P if tc == "IU2" else 2 * P
+        m = rng.integers(0, 2**16 if tc == "IU2" else 2**30, size=(L, n), dtype="uint16" if tc == "IU2" else "uint32").astype(">u2" if tc == "IU2" else ">u4")
+        spec = synth.product_spec("1.1" if tc == "C*8" else "1.5", images=[synth.image_spec("HH", None, L, P, tc, samples=[m[k].tobytes() for k in range(L)])])
+        files, _ = synth.build(spec)
+        with harness.Product(files, case["fs"]) as prod:
+            try:
+                var = prod.open(records_per_chunk=rpc)["imagery/HH/data"]
+                vals = np.asarray(var.values)
+                view = "=u2" if tc == "IU2" else "=u4"
+                ok = tuple(var.shape) == (L, P) and vals.shape == (L, P) and np.array_equal(np.ascontiguousarray(vals).view(view).reshape(L, -1), m.astype(view))
+                if not ok:
+                    fails.append({"sig": {"kind": "twin-value", "type": tc}, "detail": f"{tc} {L}x{P} rpc={rpc} opened {'after' if (tc, P) == order[1] else 'before'} its twin of equal record length: shape {vals.shape} / values differ from the file", "case": {**case, "fn": "execute_twins"}})
+            except Exception as e:
+                fails.append({"sig": {"kind": "twin-raises", "type": tc, "exc": type(e).__name__}, "detail": f"{tc} {L}x{P} rpc={rpc} with a twin of equal record length: {type(e).__name__}: {str(e)[:100]}", "case": {**case, "fn": "execute_twins"}})
+    return {"ok": not fails, "failures": fails, "outcome": "twins-ok" if not fails else fails[0]["sig"]["kind"], "nontrivial": True}
 
 
 def large_plan(tier):
@@ -194,6 +242,10 @@ def large_plan(tier):
     for tc, L, P, rpcs in (("IU2", 5120, 4, (None, 8192, 1000, 512)), ("C*8", 4096, 2, (None, 4096, 100)), ("IU2", 4097, 1, (None, 4097))):
         for rpc in rpcs:
             cases.append({"type": tc, "L": L, "P": P, "rpc": rpc, "fs": "mcfs"})
+    # request spans (rpc x record length - prefix) that are exactly a power of two / a MiB multiple, not at the end of the file
+    # (record lengths are limited to 999999 by the 6-digit header field; rpc and P solve rpc x (prefix + bps P) - prefix == span)
+    for tc, rpc, P in (("IU2", 2, 16336), ("C*8", 2, 4062), ("IU2", 2, 262096), ("C*8", 2, 65502), ("IU2", 4, 262072), ("C*8", 3, 87336), ("IU2", 4, 393144), ("C*8", 4, 98253), ("IU2", 8, 262060), ("C*8", 7, 74840), ("IU2", 10, 419344), ("C*8", 9, 116448)):
+        cases.append({"type": tc, "L": 2 * rpc + 1, "P": P, "rpc": rpc, "fs": "local" if rpc == 3 else "mcfs"})
     # ~100 MB images: selections beyond 64 MiB, single requests of 5 MB / 80 MB / 96 MB
     cases.append({"type": "IU2", "L": 1300, "P": 40000, "rpc": None, "fs": "mcfs"})
     cases.append({"type": "IU2", "L": 1300, "P": 40000, "rpc": 64, "fs": "mcfs"})
@@ -219,7 +271,8 @@ def run(res, tier, seed):
         " 5120x4 / 4097x1 IU2 and 4096x2 C*8 (>= 4096 lines; line counts that are and are not multiples of the request size), 1300x40000 IU2 and 300x40000 C*8 (~100 MB: selections"
         " beyond 64 MiB, requests of 5..96 MB; 260 MB in the thorough tier),"
         " and 2500x8 IU2 / 2100x3 C*8 x rpc {default,1,100,256,1000,1024,2048} (10000 and 70000 lines in the thorough tier), each with"
-        " full / single-line / window / strided reads"
+        " full / single-line / window / strided reads, results held across later reads, deep copies and pickle round trips of the tree; 5-line images whose request"
+        " span is exactly 2^16, 2^20, 2^21, 3*2^20, 2^22, 2^23 bytes; pairs of a 1.1 and a 1.5 image with equal record length opened in one process in both orders"
     )
     res.assumptions = [
         "signalling-NaN bit patterns are excluded (copy semantics are CPU/NumPy properties)",
@@ -228,3 +281,6 @@ def run(res, tier, seed):
     core.run_cases(res, __name__, plan(tier, seed))
     for idx, case, out in core.pool_map(__name__, "execute_large", [{**c, "seed": seed} for c in large_plan(tier)], chunksize=1):
         res.record({**case, "fn": "execute_large"}, out, order=10**6 + idx)
+    twins = [{"L": L, "rpc": rpc, "P11": p11, "reverse": rev, "fs": fs} for L in (3, 5, 60) for rpc in (1, 2, 4, 1024) for p11 in (1, 2, 8) for rev in (False, True) for fs in ("mcfs", "local")]
+    for idx, case, out in core.pool_map(__name__, "execute_twins", twins, chunksize=4):
+        res.record({**case, "fn": "execute_twins"}, out, order=2 * 10**6 + idx)
